@@ -2336,7 +2336,8 @@ def check(run):
     run.assume('the generator functions contain no try/with; emission-order rules follow normal control flow only')
     run.assume('R5/R6 reaching definitions are path-insensitive: an index or construct bound in an earlier sibling iteration under '
                'the same condition as its use is not distinguished from the current one')
-    run.assume('sequential histories only: resetting a side table in place instead of rebinding it is equivalent here (C19 decides the concurrent case)')
+    run.assume('R1-R11 are about sequential histories; a lookup IN PROGRESS while add_route recompiles keeps its answer because the recompile '
+               'publishes fresh side tables instead of resetting them in place: R12, shared with C19 R6')
     run.rule('R1', r1_atomic_rejection, 'a rejected template leaves the route tree unchanged (mutate -> undo -> reject typestate)', floor=12)
     run.rule('R2', r2_sort_key, 'sibling sort key orders literal < multi-field < single-field', floor=3)
     run.rule('R3', r3_delayed_params, 'parameter assignment is delayed to the matched route and never leaks between branches', floor=14)
@@ -2347,6 +2348,9 @@ def check(run):
     # (with everything still referenced being emitted) is not by itself an analysis error
     run.rule('R7', r7_conflict_table, 'conflicts_with on the 3x3 node kinds', floor=6)
     run.rule('R8', r8_pruning, 'fast_return pruning is only ever conservative', floor=5)
+    from . import c19 as _c19
+
+    run.rule('R12', _c19.r6_tables_rebound, 'a recompile publishes fresh side tables; lookups in flight keep a consistent finder/table pair (shared with C19 R6)', floor=3)
     run.rule('R11', r11_converter_bounds, 'converter bounds are tested against None, not by truthiness', floor=1)
     run.rule('R10', r10_finder_invalidated, 'every accepted add_route invalidates or rebuilds the compiled finder', floor=3)
     run.rule('R9', r9_quoted_placeholders, 'only validated field names are rendered between quotes of the generated source', floor=5)
